@@ -11,13 +11,15 @@ from .runner import Outcome
 NAMES = (("H_tilde", "Ht"), ("U", "U"), ("U_inv", "Ui"))
 
 
-def outputs(problem, out, what, ham=None, kwargs=None):
-    """All three output series of a problem as dicts order -> full matrix; None on library exception."""
+def outputs(problem, out, what, ham=None, kwargs=None, order=None):
+    """All three output series of a problem as dicts order -> full matrix; None on library exception.
+
+    ``order`` (a permutation of 0, 1, 2) is the order in which the three series are swept (default H_tilde, U, U_inv)."""
     sub = Outcome()
     ctx = bd_checks.Ctx(problem, sub, ham, kwargs)
     res = {}
     if ctx.ok:
-        for name, key in NAMES:
+        for name, key in (NAMES if order is None else [NAMES[i] for i in order]):
             res[key] = ctx.all_orders(name)
             if res[key] is None:
                 break
